@@ -907,6 +907,36 @@ func (c *Ctx) updateRevisionSources(fi *load.FuncInfo, fn *gf.Fn, an *gf.Analysi
 				kind = "newest"
 			}
 		}
+		if kind == "newest" {
+			// "unchanged" is a statement about the recorded data: the newest revision is kept as the update revision only where
+			// the facts say it equals the candidate built from the current template (EqualRevision holds of it, or it is itself
+			// one of FindEqualRevisions(revisions, candidate)) -- equal numbers, names or positions say nothing about the data
+			same := false
+			keys := map[string]bool{newest.Key(): true}
+			for _, o := range d.EqualTerms(newest) {
+				keys[o.Key()] = true
+				if o.K == 'i' && len(o.A) == 2 {
+					for _, b := range append([]*gf.Term{o.A[0]}, d.EqualTerms(o.A[0])...) {
+						if b.K == 'k' && b.S == load.K8sPkg+".FindEqualRevisions" {
+							same = true
+						}
+					}
+				}
+			}
+			for _, l := range d.L {
+				if !l.Neg && l.A.Op == "b" && l.A.L != nil && l.A.L.K == 'k' && l.A.L.Fn != nil && l.A.L.Fn.Name() == "EqualRevision" {
+					for _, a := range l.A.L.A {
+						if keys[a.Key()] {
+							same = true
+						} else if g, _ := one.Implies(gf.FEq(a, newest)); g {
+							same = true
+						}
+					}
+				}
+			}
+			c.Check(same, "C08.3-unchanged-means-equal-data", fmt.Sprintf("%s: the newest revision kept as the update revision, path %d", fi.Obj.Name(), n), final.Pos(), "EqualRevision(newest, an equal revision of the candidate) holds on this path",
+				"the newest listed revision is taken for the update revision without the fact that its data equals the candidate's: with two revisions of the same number (two controller instances, a retried upgrade) the update revision can name a revision that does not reproduce the template; facts: "+clip(d.String(), 400))
+		}
 		if kind == "" {
 			c.Bad("C08.3-update-revision-source", fmt.Sprintf("%s: %s at the final return, path %d", fi.Obj.Name(), upd.Name(), n), final.Pos(),
 				"the update revision returned on this path is neither the result of the create / renumber helper nor the newest listed revision (revisions[len(revisions)-1]): it can end up below the newest revision; facts: "+clip(d.String(), 500))
